@@ -37,7 +37,7 @@ SetupStep ==
 Linearize(i) ==
   /\ sidx > Len(H.setup)
   /\ i \notin lin
-  /\ (H.hint = <<>> \/ i = H.hint[Cardinality(lin) + 1])
+  /\ (IF H.usehint THEN i = H.hint[Cardinality(lin) + 1] ELSE TRUE)    \* (IF, not a disjunction: TLC explores both sides of a disjunction in an action)
   /\ \A k \in 1..N : H.calls[k].ret < H.calls[i].inv => k \in lin
   /\ Do(CallOf(H.calls[i].call))
   /\ (last'.res = "ok") = H.calls[i].ok
